@@ -39,37 +39,11 @@ fn all_paths_bytes(ty: u64, ops: &[Op]) -> Result<Vec<u8>, String> {
             return Err("SetBuilder::extend_stream(union of sets) differs".into());
         }
     }
-    // the streaming entry point Builder::new(W): the bytes a writer receives do not depend on how
-    // many bytes it takes per call (short writes are legal) nor on buffering in front of it
+    // the streaming entry point Builder::new(W): the bytes a writer holds when the builder is done do not depend
+    // on how many bytes it takes per call (short writes are legal), on interruptions, on buffering in front of it,
+    // or on whether it commits only on flush - writers lent by &mut and inspected right after finish()
     if let Some((_, Some(r))) = &reference {
-        let drive = |b: &mut fst::raw::Builder<&mut dyn std::io::Write>| -> Result<(), String> {
-            for o in ops {
-                let res = match o {
-                    Op::Add(k) => b.add(k),
-                    Op::Insert(k, v) => b.insert(k, *v),
-                };
-                res.map_err(|e| format!("streamed build: {}", e))?;
-            }
-            Ok(())
-        };
-        for cap in [1usize, 7, 255, 0] {
-            let mut sink = crate::c08::CapSink::new(if cap == 0 { usize::MAX } else { cap }, if cap == 7 { 5 } else { 0 });
-            {
-                let mut bw;
-                let w: &mut dyn std::io::Write = if cap == 0 {
-                    bw = std::io::BufWriter::with_capacity(13, &mut sink);
-                    &mut bw
-                } else {
-                    &mut sink
-                };
-                let mut b = fst::raw::Builder::new_type(w, ty).map_err(|e| format!("streamed build: {}", e))?;
-                drive(&mut b)?;
-                b.finish().map_err(|e| format!("streamed build: {}", e))?;
-            }
-            if &sink.buf != r {
-                return Err(format!("Builder::new(writer taking {} bytes per call) differs from the in-memory build", cap));
-            }
-        }
+        crate::wrap::sink_routes(ty, ops, r)?;
     }
     reference.unwrap().1.ok_or("no fst".to_string())
 }
